@@ -1,158 +1,7 @@
 // C09: drives the real NTP listeners of /repo (server.StartIPServer and
-// server.StartSCIONServer) on loopback, plus ntp.DecodePacket /
-// ntp.ValidateRequest / ntp.EncodePacket and handleRequest (through the
-// existing hook) directly.
-//
-// The listeners run in a child process (a panic in a listener goroutine ends
-// the process); the parent relays the cases into the case file and turns a dead
-// or silent child into a case that says so.  Reply / no reply is decided by a
-// sentinel request sent afterwards from the same socket, never by waiting.
+// server.StartSCIONServer) on loopback.  The code is in verifharness/c09lib.
 package main
 
-import (
-	"bufio"
-	"fmt"
-	"io"
-	"os"
-	"os/exec"
-	"strings"
-	"sync"
-	"time"
+import "verifharness/c09lib"
 
-	"verifharness/lib"
-)
-
-const childEnv = "C09_CHILD"
-
-// ---- child -> parent protocol (stdout): "CUR\tkind\ttags\targs" announces the
-// case being driven, "CASE\tkind\ttags\targs\touts" is a finished case.
-
-var out *bufio.Writer
-
-func emitCur(kind, tags, args string) {
-	fmt.Fprintf(out, "CUR\t%s\t%s\t%s\n", kind, tags, args)
-	out.Flush()
-}
-
-func emitCase(kind, tags, args, outs string) {
-	fmt.Fprintf(out, "CASE\t%s\t%s\t%s\t%s\n", kind, tags, args, outs)
-	out.Flush()
-}
-
-func note(s string) {
-	fmt.Fprintf(out, "NOTE\t%s\n", s)
-	out.Flush()
-}
-
-func parent(a lib.Args) {
-	w := lib.NewWriter(a.Out)
-	defer w.Close()
-	exe, err := os.Executable()
-	if err != nil {
-		panic(err)
-	}
-	args := []string{"-tier", a.Tier, "-seed", fmt.Sprint(a.Seed), "-out", a.Out}
-	if a.Replay != "" {
-		args = append(args, "-replay", a.Replay)
-	}
-	cmd := exec.Command(exe, args...)
-	cmd.Env = append(os.Environ(), childEnv+"=1", "USE_MOCK_KEYS=true")
-	stdout, err := cmd.StdoutPipe()
-	if err != nil {
-		panic(err)
-	}
-	stderrFile, _ := os.CreateTemp("", "c09-child-stderr-*")
-	if stderrFile != nil {
-		cmd.Stderr = stderrFile
-		defer os.Remove(stderrFile.Name())
-	}
-	if err := cmd.Start(); err != nil {
-		panic(err)
-	}
-	var mu sync.Mutex
-	var cur []string
-	last := time.Now()
-	done := make(chan struct{})
-	go func() {
-		defer close(done)
-		rd := bufio.NewReaderSize(stdout, 1<<20)
-		for {
-			line, err := rd.ReadString('\n')
-			if len(line) > 0 && line[len(line)-1] == '\n' {
-				p := strings.Split(line[:len(line)-1], "\t")
-				mu.Lock()
-				last = time.Now()
-				switch {
-				case p[0] == "CUR" && len(p) == 4:
-					cur = p[1:]
-				case p[0] == "CASE" && len(p) == 5:
-					w.Case(p[1], p[2], p[3], p[4])
-					cur = nil
-				case p[0] == "NOTE" && len(p) == 2:
-					fmt.Println("NOTE " + p[1])
-				}
-				mu.Unlock()
-			}
-			if err != nil {
-				if err != io.EOF {
-					fmt.Println("NOTE child pipe:", err)
-				}
-				return
-			}
-		}
-	}()
-	// watchdog: a child that reports nothing for two minutes hangs
-	hung := false
-	tick := time.NewTicker(time.Second)
-	defer tick.Stop()
-loop:
-	for {
-		select {
-		case <-done:
-			break loop
-		case <-tick.C:
-			mu.Lock()
-			idle := time.Since(last)
-			mu.Unlock()
-			if idle > 120*time.Second {
-				hung = true
-				cmd.Process.Kill()
-			}
-		}
-	}
-	werr := cmd.Wait()
-	mu.Lock()
-	defer mu.Unlock()
-	if werr != nil || hung {
-		what := "died"
-		if hung {
-			what = "hung"
-		}
-		tail := ""
-		if stderrFile != nil {
-			b, _ := os.ReadFile(stderrFile.Name())
-			if len(b) > 1500 {
-				b = b[len(b)-1500:]
-			}
-			tail = strings.ReplaceAll(strings.ReplaceAll(string(b), "\n", " | "), "\t", " ")
-		}
-		fmt.Printf("NOTE listener process %s (%v) while driving %v: %s\n", what, werr, cur != nil, tail)
-		if cur != nil {
-			// the case in flight: the process that runs the listeners is gone
-			w.Case(cur[0], cur[1]+",crash", cur[2], "1 []")
-		} else {
-			w.Case("ip", "crash", "[]", "1 []")
-		}
-	}
-}
-
-func main() {
-	a := lib.ParseArgs()
-	if os.Getenv(childEnv) == "" {
-		parent(a)
-		return
-	}
-	out = bufio.NewWriterSize(os.Stdout, 1<<20)
-	defer out.Flush()
-	child(a)
-}
+func main() { c09lib.Main(false) }
